@@ -82,7 +82,9 @@ impl DiameterClient {
                     .danger_accept_invalid_certs(!self.config.verify_cert)
                     .build()?,
             );
-            let tls_stream = tls_connector.connect(&self.address.clone(), stream).await?;
+            let tls_stream = tls_connector
+                .connect(Self::tls_domain(&self.address), stream)
+                .await?;
             let (reader, writer) = tokio::io::split(tls_stream);
 
             // writer
@@ -110,6 +112,20 @@ impl DiameterClient {
                 msg_caches,
                 closed: Arc::clone(&self.closed),
             })
+        }
+    }
+
+    /// The name the server's certificate must match: the host part of `host:port`
+    /// (or of `[ipv6]:port`), not the whole address.
+    fn tls_domain(address: &str) -> &str {
+        if let Some(rest) = address.strip_prefix('[') {
+            if let Some(end) = rest.find(']') {
+                return &rest[..end];
+            }
+        }
+        match address.rfind(':') {
+            Some(i) => &address[..i],
+            None => address,
         }
     }
 
